@@ -666,13 +666,17 @@ class CEval(AutoEvaluator):
             if c is False:
                 return self._ev(node.orelse)
             cv = self._ev(node.test)
-            n0 = len(self.walker.events)
+            n0 = len(self.walker.frame.items)
             a, b = self._ev(node.body), self._ev(node.orelse)
-            if len(self.walker.events) != n0:
+            if len(self.walker.frame.items) != n0:
                 raise Stuck(f"conditional expression with file effects at line {node.lineno}")
             if isinstance(cv, tuple):
                 cv = Unknown("test on a tuple")
             return phi(cv, a, b)
+        if isinstance(node, ast.NamedExpr):
+            v = self._ev(node.value)
+            self.walker.assign(node.target, v, node)
+            return v
         if isinstance(node, ast.Lambda):
             return F.sym("lambda:" + ast.unparse(node))
         if isinstance(node, ast.Dict):
@@ -753,6 +757,13 @@ class Walker:
                 return floordiv(a, b)
             except Unsupported as e:
                 return Unknown(str(e))
+        if isinstance(op, ast.Div):
+            # true division is not integer arithmetic: kept opaque (int(a / b) is a // b), so that it never passes for a // b
+            a, b = need(a), need(b)
+            if b.is_const() and not b.is_zero() and (a / b).d.is_const() and all(
+                    c.denominator == 1 for c in (a / b).n.scale(1 / (a / b).d.const_value()).t.values()):
+                return a / b
+            return F.fn("truediv", a, b)
         if isinstance(op, ast.Mod):
             return F.fn("fmt" if _is_str(a) else "mod", need(a), need(b))
         if isinstance(op, ast.Add) and (_is_str(a) or _is_str(b)):
@@ -1287,6 +1298,10 @@ class Walker:
         func = node.func
         if name in ("abs", "np.abs", "np.absolute") and len(pos) == 1 and not is_unknown(pos[0]) and not isinstance(pos[0], tuple):
             return F.fn("abs", pos[0])
+        if name == "int" and len(pos) == 1 and not kws and not is_unknown(pos[0]) and not isinstance(pos[0], tuple):
+            p = fn_parts(pos[0])
+            if p is not None and p[0] == "truediv":
+                return floordiv(p[1][0], p[1][1])
         args = []
         if name is None:
             if isinstance(func, ast.Attribute):
@@ -1471,6 +1486,8 @@ def _bool(v):
             if ta is False and tb is True:
                 return ("not", _bool(c))
             return ("or", [("and", [_bool(c), _bool(a)]), ("and", [("not", _bool(c)), _bool(b)])])
+        if nm == "call:bool" and len(args) == 1 and not isinstance(args[0], str):
+            return _bool(args[0])
     if sym_name(v) in ("True", "False"):
         return ("const", sym_name(v) == "True")
     return ("atom", repr(v), v)
